@@ -46,23 +46,8 @@ impl Sub for RoundTrip {
       other => vio!("{}:mismatch:{}:{}", pid, p.label(), l.label(); "round trip returned {:?} instead of {:?}", other, msg),
     }
     if let LayerOut::Json(v) = &out {
-      // nothing unexpected in the payload object
-      let obj = match v.as_object() {
-        Some(o) => o,
-        None => vio!("{}:not-an-object:{}:{}", pid, p.label(), l.label(); "parser returned {}", v),
-      };
-      let mut got: Vec<&str> = obj.keys().map(|k| k.as_str()).collect();
-      got.sort();
-      if got != expected_members(l) {
-        vio!("{}:members:{}:{}", pid, p.label(), l.label(); "payload members {:?}, expected {:?}", got, expected_members(l));
-      }
-      // the same token read through the core layer carries the same JSON
-      match core_parse(&lk, &token, footer.as_deref(), assertion.as_deref()) {
-        Ok(text) => match serde_json::from_str::<serde_json::Value>(&text) {
-          Ok(j) if j == *v => {}
-          other => vio!("{}:core-vs-parser:{}:{}", pid, p.label(), l.label(); "core layer reads {:?}, parser returned {}", other, v),
-        },
-        Err(e) => vio!("{}:core-rejects-builder-token:{}:{}", pid, p.label(), l.label(); "core layer rejects the builder's token: {}", e.text),
+      if !v.is_object() {
+        vio!("{}:not-an-object:{}:{}", pid, p.label(), l.label(); "parser returned {}", v);
       }
     }
     Verdict::Pass
@@ -105,7 +90,7 @@ pub fn run(ctx: &Ctx) -> EvidenceMeta {
   EvidenceMeta {
     rule: "per (version, layer): a deterministic sweep over message byte lengths {0,1,15,16,17,31,32,33,47,48,49,63,64,65,127,128,129,255,256,257,4095,4096,4097,65535,65536,65537,100000} x {no footer, footer} (assertion alternating for v3/v4), \
            then generated cases (key incl. all-zero/all-one, nonce, message from JSON-ish ASCII / arbitrary Unicode / specials / boundary lengths, footer and assertion in {none, explicit empty, text}). \
-           Oracle: parse(build(x)) == x exactly (core: the string; builder layers: the 'data' claim, no unexpected payload members, and the core layer reads the same JSON from the builder's token). \
+           Oracle: parse(build(x)) == x exactly (core: the string; builder layers: the 'data' claim carrying the generated text). \
            Non-trivial = message non-empty or footer/assertion present; distinct by the whole case."
       .into(),
     assumptions: vec!["errors made identically on the encrypt and decrypt side are invisible to a round trip (C08 covers those)".into()],
